@@ -25,6 +25,10 @@ def pieces():
             out.append(("markup", "{%" + l + " raw " + r2 + "%} {{ r }} {%" + l2 + " endraw " + r + "%}", l == "-", r == "-", " {{ r }} "))
             out.append(("markup", "{%" + l + " comment " + r2 + "%} c {{ x }} {%" + l2 + " endcomment " + r + "%}", l == "-", r == "-", ""))
             out.append(("markup", "{%" + l + " doc " + r2 + "%} d {%" + l2 + " enddoc " + r + "%}", l == "-", r == "-", ""))
+            # the same blocks with an EMPTY body (their own code paths in the lexer)
+            out.append(("markup", "{%" + l + " raw " + r2 + "%}{%" + l2 + " endraw " + r + "%}", l == "-", r == "-", ""))
+            out.append(("markup", "{%" + l + " comment " + r2 + "%}{%" + l2 + " endcomment " + r + "%}", l == "-", r == "-", ""))
+            out.append(("markup", "{%" + l + " doc " + r2 + "%}{%" + l2 + " enddoc " + r + "%}", l == "-", r == "-", ""))
         out.append(("markup", "{#" + l + " tc " + r + "#}", l == "-", r == "-", ""))
     return out
 
